@@ -110,7 +110,7 @@ CLAIMED["C17"] = {
 }
 CLAIMED["C18"] = {
     "text": "For all trees and change sets: frame (addressed leaves new, every other leaf/node unchanged), empty change set, dotted = nested = keyword forms, "
-            "equality with level-by-level dataclasses.replace, errors for non-init/unknown fields at any depth (C18_*). replace_subgroups: full statement "
+            "equality with level-by-level dataclasses.replace, errors for non-init/unknown fields at any depth (C18_*); a mapping assigned to a field that holds no dataclass instance arrives unchanged whatever its keys, dotted ones included (C18_mapping_value_is_leaf). replace_subgroups: full statement "
             "refuted with witnesses (known findings), proved for no selection and one top-level selection.",
     "note": COMMON_NOTE + "dataclasses.replace itself is modelled.",
     "technique": T,
